@@ -174,6 +174,16 @@ class Checks:
             self.fns.append(dict(mod.fn_info(qual), obligations=n))
 
 
+def _reordered(expr):
+    """the iterated expression passes through sorted / reversed / set / a slice with a step"""
+    for n in ast.walk(expr):
+        if isinstance(n, ast.Call) and dotted(n.func).split(".")[-1] in ("sorted", "reversed", "set", "frozenset", "shuffle"):
+            return True
+        if isinstance(n, ast.Subscript) and isinstance(n.slice, ast.Slice) and n.slice.step is not None:
+            return True
+    return False
+
+
 def per_iteration(loop, events, want, allow_break=False):
     """Every completed iteration (fall/continue) has an event vector in `want`; -> (ok, detail)."""
     paths = iteration_paths(loop.body, events)
@@ -193,6 +203,7 @@ def construction_sites(repo, tier):
     _mbox(C, repo)
     _rtf(C, repo)
     _ppt_entry(C, repo)
+    _sheets(C, repo)
     _opaque_members_pure(C, repo)
     return {"obligations": C.obls, "functions": C.fns}
 
@@ -209,6 +220,8 @@ def _pdf(C, repo):
         return C.add(oid, None, f"{len(loops)} loops over reader.pages")
     lp = loops[0]
     it = ast.unparse(lp.iter).replace(" ", "")
+    if _reordered(lp.iter):
+        return C.add(oid, False, f"pages are re-ordered before they are numbered: {it[:80]}", f"{rel}:{lp.lineno}")
     if it not in ("enumerate(reader.pages,start=1)", "enumerate(reader.pages,1)", "reader.pages", "enumerate(reader.pages)"):
         return C.add(oid, None, f"iterable {it}")
     # the list handed to PdfContent(pages=...)
@@ -240,6 +253,8 @@ def _slide_loop(C, m, rel, fnq, oid, iter_pred, callee, numarg, ctor, field):
         return C.add(oid, None, f"{len(loops)} candidate loops")
     lp = loops[0]
     itc = lp.iter
+    if _reordered(itc):
+        return C.add(oid, False, f"the source sequence is re-ordered before it is numbered: {ast.unparse(itc)[:80]}", f"{rel}:{lp.lineno}")
     if not (isinstance(itc, ast.Call) and dotted(itc.func) == "enumerate" and isinstance(lp.target, ast.Tuple)
             and isinstance(lp.target.elts[0], ast.Name)):
         return C.add(oid, None, "loop is not `for i, x in enumerate(...)`")
@@ -521,6 +536,93 @@ def _ppt_entry(C, repo):
         return C.add(oid, None, "shape")
     C.add(oid, True, "content = PptContent(); _parse_ppt_document(stream, content) once; slides/all_text not touched in between", f"{rel}:{fn.lineno}")
     C.fn(m, q)
+
+
+def _ordered_build(C, m, rel, fnq, oid, iter_pred, ctor, sink_ctor=None, sink_field=None, source_name=None):
+    """`for x in <source>: ... <list>.append(<ctor>(...)|<var>)` exactly once per iteration, list initialised to [], not
+    mutated elsewhere, reaching `return <list>` or <sink_ctor>(<sink_field>=<list>); the source is iterated as it is
+    (no sorted / reversed / set)."""
+    fn = m.functions.get(fnq)
+    if fn is None:
+        return C.add(oid, None, f"{fnq} missing")
+    loops = find_loops(fn, lambda n: isinstance(n, ast.For) and iter_pred(ast.unparse(n.iter)))
+    if len(loops) != 1:
+        return C.add(oid, None, f"{len(loops)} candidate loops")
+    lp = loops[0]
+    it = ast.unparse(lp.iter)
+    if any(w in it for w in ("sorted(", "reversed(", "set(")):
+        return C.add(oid, False, f"the source is re-ordered before iteration: {it}", f"{rel}:{lp.lineno}")
+    if sink_ctor is not None:
+        cons = [n for n in ast.walk(fn) if isinstance(n, ast.Call) and dotted(n.func) == sink_ctor and isinstance(kw(n, sink_field), ast.Name)]
+        if len(cons) != 1:
+            return C.add(oid, None, f"{sink_ctor}({sink_field}=<name>) not found")
+        lst = kw(cons[0], sink_field).id
+    else:
+        rets = [n for n in ast.walk(fn) if isinstance(n, ast.Return) and isinstance(n.value, ast.Name)]
+        if len(rets) != 1:
+            return C.add(oid, None, "no single `return <name>`")
+        lst = rets[0].value.id
+    app = lambda n: method_call(n, lst, "append") and len(n.args) == 1 and (
+        (isinstance(n.args[0], ast.Call) and dotted(n.args[0].func) == ctor) or isinstance(n.args[0], ast.Name))
+    mut = lambda n: isinstance(n, ast.Call) and isinstance(n.func, ast.Attribute) and dotted(n.func.value) == lst and n.func.attr in (
+        "append", "insert", "extend", "pop", "remove", "sort", "reverse", "clear")
+    ok, detail = per_iteration(lp, [app, mut], {(1, 1)})
+    outside = [n for n in ast.walk(fn) if mut(n) and not any(n is x for x in ast.walk(lp))]
+    inits = assigns_to(fn, lst)
+    if outside or len(inits) != 1 or not isinstance(getattr(inits[0], "value", None), ast.List) or inits[0].value.elts:
+        return C.add(oid, None, f"list {lst} mutated outside the loop or not initialised to []")
+    if source_name is not None:
+        # the iterated name is a parameter or assigned once from an expression that keeps the order
+        defs = [d for d in assigns_to(fn, source_name) if isinstance(d, (ast.Assign, ast.AnnAssign))]
+        for d in defs:
+            if any(w in ast.unparse(d.value) for w in ("sorted(", "reversed(", "set(", ".sort(")):
+                return C.add(oid, False, f"{source_name} is re-ordered: {ast.unparse(d.value)[:60]}", f"{rel}:{d.lineno}")
+        srt = [n for n in ast.walk(fn) if isinstance(n, ast.Call) and isinstance(n.func, ast.Attribute) and dotted(n.func.value) == source_name
+               and n.func.attr in ("sort", "reverse")]
+        if srt:
+            return C.add(oid, False, f"{source_name}.{srt[0].func.attr}() re-orders the source", f"{rel}:{srt[0].lineno}")
+    C.add(oid, ok, detail, f"{rel}:{lp.lineno}")
+    C.fn(m, fnq)
+
+
+def _sheets(C, repo):
+    rel = EX + "ms_modern/xlsx_extractor.py"
+    m = loader.module(rel, repo)
+    _ordered_build(C, m, rel, "_read_content_from_workbook", "C03/xlsx_extractor.py::_read_content_from_workbook/construction#one-sheet-per-sheet-name-in-order",
+                   lambda s: s == "sheet_names", "XlsxSheet", source_name="sheet_names")
+    # read_xlsx hands the workbook's own sheet order to it, and the result to XlsxContent
+    oid = "C03/xlsx_extractor.py::read_xlsx/construction#sheets-in-workbook-order"
+    fn = m.functions.get("read_xlsx")
+    if fn is None:
+        C.add(oid, None, "missing")
+    else:
+        calls = [n for n in ast.walk(fn) if isinstance(n, ast.Call) and dotted(n.func) == "_read_content_from_workbook"]
+        defs = [d for d in assigns_to(fn, "sheet_names") if isinstance(d, ast.Assign)]
+        cons = [n for n in ast.walk(fn) if isinstance(n, ast.Call) and dotted(n.func) == "XlsxContent" and isinstance(kw(n, "sheets"), ast.Name)]
+        shape = len(calls) == 1 and len(calls[0].args) == 2 and ast.unparse(calls[0].args[1]) == "sheet_names" and len(defs) == 1 and len(cons) == 1
+        if not shape:
+            C.add(oid, None, "shape")
+        else:
+            src = ast.unparse(defs[0].value).replace(" ", "")
+            lst = kw(cons[0], "sheets").id
+            a = [d for d in assigns_to(fn, lst) if isinstance(d, ast.Assign)]
+            reorder = [n for n in ast.walk(fn) if isinstance(n, ast.Call) and ((isinstance(n.func, ast.Attribute) and dotted(n.func.value) in (lst, "sheet_names")
+                       and n.func.attr in ("sort", "reverse", "insert", "pop", "remove", "append", "extend")) or dotted(n.func) in ("sorted", "reversed"))]
+            if src not in ("list(wb.sheetnames)", "wb.sheetnames"):
+                C.add(oid, False if ("sorted" in src or "reversed" in src) else None, f"sheet_names = {src}", f"{rel}:{defs[0].lineno}")
+            elif reorder or len(a) != 1 or a[0].value is not calls[0]:
+                C.add(oid, None, "sheet list re-ordered or not the direct result of _read_content_from_workbook")
+            else:
+                C.add(oid, True, "sheet_names = list(wb.sheetnames) -> _read_content_from_workbook -> XlsxContent(sheets=...)", f"{rel}:{fn.lineno}")
+                C.fn(m, "read_xlsx")
+    rel = EX + "ms_legacy/xls_extractor.py"
+    m = loader.module(rel, repo)
+    _ordered_build(C, m, rel, "_read_content", "C03/xls_extractor.py::_read_content/construction#one-sheet-per-workbook-sheet-in-order",
+                   lambda s: s.replace(" ", "") == "workbook.sheets()", "XlsSheet")
+    rel = EX + "open_office/ods_extractor.py"
+    m = loader.module(rel, repo)
+    _slide_loop(C, m, rel, "read_ods", "C03/ods_extractor.py::read_ods/construction#table-k-becomes-sheet-k",
+                lambda s: "table:table" in s, "_extract_sheet", 2, "OdsContent", "sheets")
 
 
 def _opaque_members_pure(C, repo):
